@@ -289,6 +289,25 @@ func run(c Case) (res *h.Result) {
 					return r.fail(res, fmt.Sprintf("instance of %s made before %s: (typep old '%s) => %s, its class had the precedence %v when it was made", oldOf, describeForm(f), other, sx.Text(o.Val), oldPrec))
 				}
 			}
+			// method applicability follows the same list: after a call with an instance of the new class (which fills
+			// the dispatch cache under the class name) the old instance still runs the method its own precedence selects
+			if len(r.ppDone) > 0 && r.w.Complete(f.C) {
+				if o := r.lisp("(make-instance '%s)", r.cn(f.C)); o.Kind == ev.Value {
+					r.scope.Let(slip.Symbol("new-instance"), o.Val)
+					_ = r.lisp("(%s new-instance)", r.cn("pp"))
+					wantPP := ""
+					for _, p := range oldPrec {
+						if r.ppDone[p] {
+							wantPP = p
+							break
+						}
+					}
+					got := r.lisp("(%s old-instance)", r.cn("pp"))
+					if wantPP != "" && (got.Kind != ev.Value || sx.Text(got.Val) != wantPP) {
+						return r.fail(res, fmt.Sprintf("instance of %s made before %s: the probe generic with methods on %v ran %s, the precedence list of its class (%v) selects the method of %s", oldOf, describeForm(f), keys(r.ppDone), got, oldPrec, wantPP))
+					}
+				}
+			}
 			oldPrec, oldOf = nil, ""
 		}
 		// every class whose direct and indirect superclasses are all defined has its final precedence list now
